@@ -40,7 +40,8 @@ func (c *c05) Cases(tier string, seed int64) []core.Case {
 	nb := map[string]int{"quick": 6, "thorough": 40}[tier]
 	for i := 0; i < nb; i++ {
 		cs = append(cs, core.MkCase(fmt.Sprintf("many-blocks-%d", i), c05Params{r.Int63(), "many-blocks"}))
-		cs = append(cs, core.MkCase(fmt.Sprintf("many-slices-%d", i), c05Params{r.Int63(), "many-slices"}))
+		// the slice-count class is chosen by bits 8.. of the seed: cycle through all classes
+		cs = append(cs, core.MkCase(fmt.Sprintf("many-slices-%d", i), c05Params{r.Int63()&^(0xffff<<8) | int64(i)<<8, "many-slices"}))
 	}
 	cs = append(cs, core.MkCase("near-16k", c05Params{r.Int63(), "near-16k"}))
 	if tier == "thorough" {
@@ -74,7 +75,7 @@ func (c *c05) Run(cs core.Case) core.Result {
 		}
 	case "many-slices":
 		slice := []int{4, 8}[rng.Intn(2)]
-		total := []int{257, 300, 1000, 2500}[rng.Intn(4)]
+		total := []int{257, 1025, 2500, 300, 1000, 1024, 4097}[int(p.Seed>>8&0xffff)%7]
 		set = scen.Set{SliceSize: slice, Blocks: 1 + rng.Intn(3), Content: "random"}
 		nf := 1 + rng.Intn(3)
 		for i := 0; i < nf; i++ {
